@@ -229,6 +229,26 @@ func (w *World) concPhase(r *rand.Rand, sid int, mut []string, readers [][]strin
 			}()
 			mu.Lock()
 			ks := append([]int(nil), pinOf[1]...)
+			// The repaired Flush starts its pins over when the mutator has replaced a handle under it:
+			// what it persists are the pins of its LAST pass.  A pass pins the collections in name
+			// order and an aborted pass is a proper prefix of that order, so the last pass begins at
+			// the first position from which the pin names spell out all current names.
+			cn := st.GetCollectionNames()
+			sort.Strings(cn)
+			for i := 0; i+len(cn) <= len(flushPinNames) && len(cn) > 0; i++ {
+				match := true
+				for j, n := range cn {
+					if flushPinNames[i+j] != n {
+						match = false
+						break
+					}
+				}
+				if match {
+					ks = ks[i:]
+					flushPinNames = flushPinNames[i:]
+					break
+				}
+			}
 			mu.Unlock()
 			var kstr []string
 			for _, k := range ks {
